@@ -7,6 +7,7 @@
 //     `if ack == nil || ack.Success() { write }`, `if ack != nil { WriteAcknowledgement }`) on a third branch,
 //     with the acknowledgement store read back,
 //   - the stack's OnAcknowledgementPacket / OnTimeoutPacket against the bare module's (refund path).
+//
 // The channel for the core handler is written directly into the IBC store (OPEN UNORDERED channel
 // transfer/channel-0 <-> transfer/channel-7 over a connection whose client is a 09-localhost client; the
 // packet commitment the localhost client looks up is planted in its client store) — the handshake and proof
@@ -84,14 +85,14 @@ type Spec struct {
 	ChanEscrow   string `json:"chan_escrow"`   // ICS-20 channel escrow balance of the returning denomination
 	// --- packet
 	Raw      *string `json:"raw,omitempty"` // hex: packet data verbatim (malformed stream); otherwise the fields below
-	Denom    string `json:"denom"`
-	Amount   string `json:"amount"`
-	Sender   string `json:"sender"`
-	Receiver string `json:"receiver"` // verbatim string; "@hex" = bech32 of these bytes with this chain's prefix
-	DstChan  string `json:"dst_chan"`
-	SrcChan  string `json:"src_chan"`
-	Seq      uint64 `json:"seq"`
-	Tag      string `json:"tag"` // generator's label (distribution statistics only)
+	Denom    string  `json:"denom"`
+	Amount   string  `json:"amount"`
+	Sender   string  `json:"sender"`
+	Receiver string  `json:"receiver"` // verbatim string; "@hex" = bech32 of these bytes with this chain's prefix
+	DstChan  string  `json:"dst_chan"`
+	SrcChan  string  `json:"src_chan"`
+	Seq      uint64  `json:"seq"`
+	Tag      string  `json:"tag"` // generator's label (distribution statistics only)
 }
 
 type Snap struct {
@@ -130,31 +131,33 @@ type CbObs struct { // OnAcknowledgementPacket / OnTimeoutPacket: stack vs bare
 
 type Obs struct {
 	// oracle values (real library functions on this packet)
-	Decoded   bool   `json:"decoded"`
-	DDenom    string `json:"d_denom"`
-	DAmount   string `json:"d_amount"`
-	DSender   string `json:"d_sender"`
-	DReceiver string `json:"d_receiver"`
-	AmountOK  bool   `json:"amount_ok"`
-	AmountVal string `json:"amount_val"`
-	RecvOK    bool   `json:"recv_ok"`
-	RecvBytes string `json:"recv_bytes"` // hex
-	HookDenom string `json:"hook_denom"` // x/aggregate/types.IBCDenom(dest port, dest channel, data.Denom)
-	GotDenom  string `json:"got_denom"`  // denomination ibc-go's transfer keeper credits for this packet
-	Returning bool   `json:"returning"`
-	PreimHook string `json:"preim_hook"` // sha256 pre-image behind HookDenom
-	Blocked   bool   `json:"blocked"`    // bank.BlockedAddr(BytesToAddress(receiver))
-	Contract  string `json:"contract"`   // hex, pair's ERC-20 ("" when none)
-	Alive     bool   `json:"alive"`      // contract account holds code
-	Owner     int    `json:"owner"`      // 1 module, 2 external
-	Pre       Snap   `json:"pre"`
-	Bare      CallObs `json:"bare"`
-	Stack     CallObs `json:"stack"`
-	Core      CallObs `json:"core"`
-	BareCommit string `json:"bare_commit"` // channeltypes.CommitAcknowledgement(bare ack bytes)
-	AckCb     CbObs  `json:"ack_cb"`
-	ToCb      CbObs  `json:"to_cb"`
-	SetupErr  string `json:"setup_err,omitempty"`
+	Decoded    bool        `json:"decoded"`
+	DDenom     string      `json:"d_denom"`
+	DAmount    string      `json:"d_amount"`
+	DSender    string      `json:"d_sender"`
+	DReceiver  string      `json:"d_receiver"`
+	AmountOK   bool        `json:"amount_ok"`
+	AmountVal  string      `json:"amount_val"`
+	RecvOK     bool        `json:"recv_ok"`
+	RecvBytes  string      `json:"recv_bytes"` // hex
+	HookDenom  string      `json:"hook_denom"` // x/aggregate/types.IBCDenom(dest port, dest channel, data.Denom)
+	GotDenom   string      `json:"got_denom"`  // denomination ibc-go's transfer keeper credits for this packet
+	Returning  bool        `json:"returning"`
+	Sha        [][2]string `json:"sha"`      // sha256 table (hex argument, hex value) for every argument the model needs
+	EvmRecv    string      `json:"evm_recv"` // hex, common.BytesToAddress(receiver)
+	Module     string      `json:"module"`   // hex, aggregate module address
+	Blocked    bool        `json:"blocked"`  // bank.BlockedAddr(BytesToAddress(receiver))
+	Contract   string      `json:"contract"` // hex, pair's ERC-20 ("" when none)
+	Alive      bool        `json:"alive"`    // contract account holds code
+	Owner      int         `json:"owner"`    // 1 module, 2 external
+	Pre        Snap        `json:"pre"`
+	Bare       CallObs     `json:"bare"`
+	Stack      CallObs     `json:"stack"`
+	Core       CallObs     `json:"core"`
+	BareCommit string      `json:"bare_commit"` // channeltypes.CommitAcknowledgement(bare ack bytes)
+	AckCb      CbObs       `json:"ack_cb"`
+	ToCb       CbObs       `json:"to_cb"`
+	SetupErr   string      `json:"setup_err,omitempty"`
 }
 
 type Result struct {
@@ -166,11 +169,11 @@ type Result struct {
 // environment
 
 type env struct {
-	app      *app.Teleport
-	base     sdk.Context
-	user     common.Address // deploys external tokens
-	relayer  sdk.AccAddress
-	stack    interface {
+	app     *app.Teleport
+	base    sdk.Context
+	user    common.Address // deploys external tokens
+	relayer sdk.AccAddress
+	stack   interface {
 		OnRecvPacket(sdk.Context, channeltypes.Packet, sdk.AccAddress) ibcexported.Acknowledgement
 		OnAcknowledgementPacket(sdk.Context, channeltypes.Packet, []byte, sdk.AccAddress) error
 		OnTimeoutPacket(sdk.Context, channeltypes.Packet, sdk.AccAddress) error
@@ -225,6 +228,14 @@ func newEnv() *env {
 	cp, err := a.ScopedIBCKeeper.NewCapability(ctx, capName)
 	must(err)
 	must(a.ScopedIBCTransferKeeper.ClaimCapability(ctx, cp, capName))
+
+	// bystanders: balances and a registered pair no packet of a run refers to ("nothing else changes")
+	by := sdk.AccAddress([]byte("verif-c16-bystander-"))
+	byCoins := sdk.NewCoins(sdk.NewInt64Coin("ubystander", 777), sdk.NewInt64Coin("ibc/0000000000000000000000000000000000000000000000000000000000000000", 5))
+	must(a.BankKeeper.MintCoins(ctx, aggtypes.ModuleName, byCoins.Add(sdk.NewInt64Coin("ubystander", 3))))
+	must(a.BankKeeper.SendCoinsFromModuleToAccount(ctx, aggtypes.ModuleName, by, byCoins))
+	_, err = a.AggregateKeeper.RegisterCoin(ctx, meta("ubystander"))
+	must(err)
 
 	st, ok := a.IBCKeeper.Router.GetRoute(transfertypes.ModuleName)
 	if !ok {
@@ -444,10 +455,15 @@ func runSpec(e *env, s Spec) (res Result) {
 	o.RecvBytes = hlib.Hex(recv)
 	hookDenom, _ := aggtypes.IBCDenom(port, dst, ftpd.Denom)
 	o.HookDenom = hookDenom
-	o.PreimHook = hlib.Hex([]byte(transfertypes.GetDenomPrefix(port, dst) + ftpd.Denom))
+	addSha := func(arg []byte) {
+		h := sha256.Sum256(arg)
+		o.Sha = append(o.Sha, [2]string{hlib.Hex(arg), hlib.Hex(h[:])})
+	}
+	addSha([]byte(transfertypes.GetDenomPrefix(port, dst) + ftpd.Denom))
 	o.Returning = transfertypes.ReceiverChainIsSource(port, src, ftpd.Denom)
 	if o.Returning {
 		un := ftpd.Denom[len(transfertypes.GetDenomPrefix(port, src)):]
+		addSha([]byte(un))
 		o.GotDenom = un
 		if tr := transfertypes.ParseDenomTrace(un); tr.Path != "" {
 			o.GotDenom = tr.IBCDenom()
@@ -459,6 +475,7 @@ func runSpec(e *env, s Spec) (res Result) {
 		o.GotDenom = ""
 	}
 	evmRecv := common.BytesToAddress(recv)
+	o.EvmRecv, o.Module = hlib.Hex(evmRecv.Bytes()), hlib.Hex(aggtypes.ModuleAddress.Bytes())
 	o.Blocked = a.BankKeeper.BlockedAddr(evmRecv.Bytes())
 
 	// ---- build the state
@@ -554,6 +571,10 @@ func runSpec(e *env, s Spec) (res Result) {
 	o.Stack = call(func(c sdk.Context) ibcexported.Acknowledgement { return e.stack.OnRecvPacket(c, pkt, e.relayer) })
 	if o.Bare.Class == 0 && !o.Bare.AckNil {
 		o.BareCommit = hlib.Hex(channeltypes.CommitAcknowledgement(hlib.UnHex(o.Bare.Ack)))
+		o.Sha = append(o.Sha, [2]string{o.Bare.Ack, o.BareCommit})
+	}
+	if o.Stack.Class == 0 && !o.Stack.AckNil && o.Stack.Ack != o.Bare.Ack {
+		addSha(hlib.UnHex(o.Stack.Ack))
 	}
 
 	// (c) ibc-go's core handler, when the packet is routable over the channel that exists
@@ -604,7 +625,16 @@ func runSpec(e *env, s Spec) (res Result) {
 		return CbObs{BareClass: bc, StackClass: sc, SamePost: bd == sd}
 	}
 	// outgoing view: source = our channel; fund the escrow so that a refund has something to move
-	out := channeltypes.NewPacket(data, s.Seq, port, dst, port, src, clienttypes.NewHeight(1, 1000000), 0)
+	outData := data
+	if o.Decoded {
+		// a local sender, so that a refund has somebody to go to
+		local := sdk.AccAddress([]byte("verif-c16-sender----"))
+		if o.RecvOK && s.Seq%2 == 0 {
+			local = recv
+		}
+		outData = transfertypes.NewFungibleTokenPacketData(ftpd.Denom, ftpd.Amount, local.String(), "remote-receiver").GetBytes()
+	}
+	out := channeltypes.NewPacket(outData, s.Seq, port, dst, port, src, clienttypes.NewHeight(1, 1000000), 0)
 	if o.Decoded && o.AmountOK && sdk.ValidateDenom(ftpd.Denom) == nil && amt(o.AmountVal).IsPositive() && amt(o.AmountVal).BigInt().BitLen() < 200 {
 		e.fund(ctx, transfertypes.GetEscrowAddress(port, dst), ftpd.Denom, amt(o.AmountVal))
 	}
